@@ -20,7 +20,8 @@ XVals == {0, 1, 2, 255, 256, 300}
 XUnit == { Canon([src |-> s, val |-> xv, skip |-> sk, fs |-> <<>>]) : s \in {"none", "attr", "disc"}, xv \in XVals, sk \in BOOLEAN }
 XData == { Canon([src |-> s, val |-> xv, skip |-> sk, fs |-> <<[ty |-> "u8", attr |-> "none"]>>]) : s \in {"none", "attr"}, xv \in XVals, sk \in BOOLEAN }
 XEnums ==
-     { [kind |-> "enum", vs |-> <<a, b>>] : a \in XUnit, b \in XUnit }
+     { [kind |-> "enum", vs |-> <<a>>] : a \in XUnit \cup XData }
+\cup { [kind |-> "enum", vs |-> <<a, b>>] : a \in XUnit, b \in XUnit }
 \cup { [kind |-> "enum", vs |-> <<a, b, c>>] : a \in XUnit, b \in XUnit, c \in { x \in XUnit : x.val \in {0, 2, 256} } }
 \cup { [kind |-> "enum", vs |-> <<a, b, c>>] : a \in XData, b \in { x \in XData : x.val \in {0, 1, 300} }, c \in { x \in XUnit : x.src # "disc" /\ x.val \in {0, 1, 255} } }
 XDefs == { d \in XEnums : RustValid(d) }
